@@ -8,10 +8,12 @@ package c19
 
 import (
 	"fmt"
+	"math"
 	"os"
 	"sort"
 	"strings"
 	"sync"
+	"sync/atomic"
 	"testing"
 	"time"
 
@@ -20,6 +22,7 @@ import (
 	"github.com/nspcc-dev/neo-go/pkg/neotest"
 	"github.com/nspcc-dev/neo-go/pkg/smartcontract"
 	"github.com/nspcc-dev/neo-go/pkg/util"
+	"github.com/nspcc-dev/neo-go/pkg/wallet"
 	"github.com/nspcc-dev/neo-go/verifharness/vlib/ev"
 	"github.com/nspcc-dev/neo-go/verifharness/vlib/rng"
 	"github.com/nspcc-dev/neo-go/verifharness/vlib/vchain"
@@ -54,6 +57,15 @@ func makeSchedule(idx int) schedule {
 	case 3:
 		c.MaxSysFee = 4 * txSysFee
 	}
+	if idx%6 == 2 {
+		// committee of N+2 with elections: the validator set changes at epoch
+		// boundaries, nodes switch between watch-only and validator
+		c.Extra = 2
+		c.MaxTx, c.MaxSysFee = 0, 20000*txSysFee // candidate registration costs 1000 GAS of system fee
+	}
+	if idx%6 == 4 {
+		c.MaxTPB = 4 * blockTime
+	}
 	sc.Cfg = c
 	sc.ID = fmt.Sprintf("sched-%d", idx)
 	return sc
@@ -69,17 +81,17 @@ type stepInfo struct {
 }
 
 type attemptResult struct {
-	an       *analysis
-	stall    string // "" or the kind of bounded-progress failure
-	stallMsg string
-	steps    []stepInfo
-	net      map[string]int64
-	rec      *recorder
-	problems []string
-	kinds    map[string]bool
+	an                       *analysis
+	stall                    string // "" or the kind of bounded-progress failure
+	stallMsg                 string
+	steps                    []stepInfo
+	net                      map[string]int64
+	rec                      *recorder
+	problems                 []string
+	kinds                    map[string]bool
 	faultBlocks, quietBlocks int
-	heights  []uint32
-	wall     time.Duration
+	heights                  []uint32
+	wall                     time.Duration
 }
 
 type attempt struct {
@@ -89,8 +101,9 @@ type attempt struct {
 	net    *simnet
 	sr     *rng.R
 	res    *attemptResult
-	nonce  uint32
+	nonce  atomic.Uint32
 	txLeft int
+	govTxs []util.Uint256
 }
 
 // waitUntil polls cond every quarter block interval.
@@ -132,10 +145,21 @@ func (a *attempt) quiet(wantBlocks int, untilNoPending bool) bool {
 	lastMax, lastMin := maxU32(before), minU32(before)
 	tMax, tMin := time.Now(), time.Now()
 	target := lastMax + uint32(wantBlocks)
-	hardStop := lastMax + uint32(wantBlocks) + uint32(6*a.sc.Cfg.N+6)
+	// transactions count as pending only when pooled at a node that is a
+	// validator during the whole phase (only those get to propose)
+	stable := a.cl.validatorNodes()
+	hardStop := target
+	if untilNoPending {
+		bcfg := a.cl.nodes[0].bc.GetConfig()
+		perBlock := min(int64(bcfg.MaxTransactionsPerBlock), bcfg.MaxBlockSystemFee/txSysFee)
+		hardStop += uint32(6*a.sc.Cfg.N+6) + uint32(int64(len(a.cl.pendingTxs(stable)))/max(perBlock, 1))
+	}
 	ok := true
 	for {
 		hs := a.cl.heights()
+		for i, v := range a.cl.validatorNodes() {
+			stable[i] = stable[i] && v
+		}
 		mx, mn := maxU32(hs), minU32(hs)
 		now := time.Now()
 		if mx > lastMax {
@@ -148,7 +172,7 @@ func (a *attempt) quiet(wantBlocks int, untilNoPending bool) bool {
 			if !untilNoPending {
 				break
 			}
-			pend := a.cl.pendingTxs()
+			pend := a.cl.pendingTxs(stable)
 			if len(pend) == 0 {
 				break
 			}
@@ -211,7 +235,7 @@ func (a *attempt) syncer(stop chan struct{}, wg *sync.WaitGroup) {
 				}
 				raw := vchain.EncodeBlock(b)
 				dst := nd
-				a.net.send(best, j, "syncblock", func() { dst.onBlockRaw(raw) })
+				a.net.send(best, j, "syncblock", "", -1, func() { dst.onBlockRaw(raw) })
 			}
 		}
 	}
@@ -246,12 +270,7 @@ func (a *attempt) feeder(stop chan struct{}, wg *sync.WaitGroup) {
 			if r.Intn(8) == 0 {
 				vub = mx + 2 + uint32(r.Intn(2)) // may expire before anybody proposes it
 			}
-			tx := a.newTx(r, vub)
-			tr := &txRec{Hash: tx.Hash(), VUB: vub, Size: tx.Size(), SysFee: tx.SystemFee, NetFee: tx.NetworkFee, Raw: tx.Bytes(), PooledAt: map[int]uint32{}}
-			cl.rec.mu.Lock()
-			cl.rec.txs[tr.Hash] = tr
-			cl.rec.txOrder = append(cl.rec.txOrder, tr.Hash)
-			cl.rec.mu.Unlock()
+			tx := a.newTransfer(r, vub)
 			var subset []int
 			switch x := r.Intn(12); {
 			case x < 2:
@@ -270,46 +289,127 @@ func (a *attempt) feeder(stop chan struct{}, wg *sync.WaitGroup) {
 					subset = []int{r.Intn(n)}
 				}
 			}
-			for _, i := range subset {
-				t2, err := transaction.NewTransactionFromBytes(tr.Raw)
-				if err != nil {
-					continue
-				}
-				nd := cl.nodes[i]
-				if err := nd.bc.PoolTx(t2); err == nil {
-					cl.notePooled(tr.Hash, i, nd.bc.BlockHeight(), false)
-					a.net.count("tx_pool_accepts", 1)
-				} else {
-					a.net.count("tx_pool_rejects", 1)
-					if os.Getenv("C19_DEBUG") != "" {
-						fmt.Println("pool reject:", err)
-					}
-				}
-			}
+			a.submit(tx, subset)
 			a.net.count("txs_submitted", 1)
 		}
 	}
 }
 
-func (a *attempt) newTx(r *rng.R, vub uint32) *transaction.Transaction {
+// submit registers the transaction with the oracle and pools a private
+// decoded copy at every node of subset.
+func (a *attempt) submit(tx *transaction.Transaction, subset []int) {
 	cl := a.cl
+	tr := &txRec{Hash: tx.Hash(), VUB: tx.ValidUntilBlock, Size: tx.Size(), SysFee: tx.SystemFee, NetFee: tx.NetworkFee, Raw: tx.Bytes(), PooledAt: map[int]uint32{}}
+	cl.rec.mu.Lock()
+	cl.rec.txs[tr.Hash] = tr
+	cl.rec.txOrder = append(cl.rec.txOrder, tr.Hash)
+	cl.rec.mu.Unlock()
+	for _, i := range subset {
+		t2, err := transaction.NewTransactionFromBytes(tr.Raw)
+		if err != nil {
+			continue
+		}
+		nd := cl.nodes[i]
+		if err := nd.bc.PoolTx(t2); err == nil {
+			cl.notePooled(tr.Hash, i, nd.bc.BlockHeight(), false)
+			a.net.count("tx_pool_accepts", 1)
+		} else {
+			a.net.count("tx_pool_rejects", 1)
+			if os.Getenv("C19_DEBUG") != "" {
+				fmt.Println("pool reject:", err)
+			}
+		}
+	}
+}
+
+// newTx builds a transaction paid and signed by the standby validators'
+// multisignature account, optionally co-signed by single keys.
+func (a *attempt) newTx(script []byte, sysFee int64, vub uint32, extraFee int64, cosigners ...neotest.Signer) *transaction.Transaction {
+	cl := a.cl
+	tx := transaction.New(script, sysFee)
+	tx.Nonce = a.nonce.Add(1)
+	tx.ValidUntilBlock = vub
+	signers := append([]neotest.Signer{cl.multi}, cosigners...)
+	for _, s := range signers {
+		tx.Signers = append(tx.Signers, transaction.Signer{Account: s.ScriptHash(), Scopes: transaction.CalledByEntry})
+	}
+	neotest.AddNetworkFee(a.t, cl.nodes[0].bc, tx, signers...)
+	tx.NetworkFee += extraFee
+	for _, s := range signers {
+		if err := s.SignTx(cl.magic, tx); err != nil {
+			panic(err)
+		}
+	}
+	return tx
+}
+
+func (a *attempt) newTransfer(r *rng.R, vub uint32) *transaction.Transaction {
 	var to util.Uint160
 	copy(to[:], r.Bytes(20))
-	script, err := smartcontract.CreateCallScript(nativehashes.GasToken, "transfer", cl.multi.ScriptHash(), to, int64(1+r.Intn(1000)), nil)
+	script, err := smartcontract.CreateCallScript(nativehashes.GasToken, "transfer", a.cl.multi.ScriptHash(), to, int64(1+r.Intn(1000)), nil)
 	if err != nil {
 		panic(err)
 	}
-	tx := transaction.New(script, txSysFee)
-	a.nonce++
-	tx.Nonce = a.nonce
-	tx.ValidUntilBlock = vub
-	tx.Signers = []transaction.Signer{{Account: cl.multi.ScriptHash(), Scopes: transaction.CalledByEntry}}
-	neotest.AddNetworkFee(a.t, cl.nodes[0].bc, tx, cl.multi)
-	tx.NetworkFee += int64(r.Intn(4)) * 10_0000 // different priorities
-	if err := cl.multi.SignTx(cl.magic, tx); err != nil {
+	return a.newTx(script, txSysFee, vub, int64(r.Intn(4))*10_0000) // different priorities
+}
+
+func (a *attempt) allNodes() []int {
+	r := make([]int, len(a.cl.nodes))
+	for i := range r {
+		r[i] = i
+	}
+	return r
+}
+
+// onChain reports whether all the given transactions are on the highest ledger.
+func (a *attempt) onChain(hs []util.Uint256) bool {
+	heights := a.cl.heights()
+	best := 0
+	for i := range heights {
+		if heights[i] > heights[best] {
+			best = i
+		}
+	}
+	for _, h := range hs {
+		if _, ih, err := a.cl.nodes[best].bc.GetTransaction(h); err != nil || ih == math.MaxUint32 {
+			return false
+		}
+	}
+	return true
+}
+
+// registerCandidates makes every committee key a candidate (one transaction
+// each, pooled everywhere) and waits until they are on chain.
+func (a *attempt) registerCandidates() bool {
+	cl := a.cl
+	var hs []util.Uint256
+	for _, k := range cl.keys {
+		script, err := smartcontract.CreateCallScript(nativehashes.NeoToken, "registerCandidate", k.PublicKey().Bytes())
+		if err != nil {
+			panic(err)
+		}
+		cand := neotest.NewSingleSigner(wallet.NewAccountFromPrivateKey(k))
+		tx := a.newTx(script, 1001*txSysFee, maxU32(cl.heights())+200, 0, cand)
+		a.submit(tx, a.allNodes())
+		hs = append(hs, tx.Hash())
+	}
+	a.govTxs = append(a.govTxs, hs...)
+	return waitUntil(60*blockTime, func() bool { return a.onChain(hs) })
+}
+
+// vote moves all NEO votes of the standby multisignature account (the whole
+// supply) to committee key k: from the next epoch on k is a validator
+// together with the N-1 lowest other keys.
+func (a *attempt) vote(k int) {
+	cl := a.cl
+	script, err := smartcontract.CreateCallScript(nativehashes.NeoToken, "vote", cl.multi.ScriptHash(), cl.keys[k].PublicKey().Bytes())
+	if err != nil {
 		panic(err)
 	}
-	return tx
+	tx := a.newTx(script, 2*txSysFee, maxU32(cl.heights())+200, 50_0000)
+	a.submit(tx, a.allNodes())
+	a.govTxs = append(a.govTxs, tx.Hash())
+	a.net.count("vote_txs_submitted", 1)
 }
 
 func runAttempt(t testing.TB, sc schedule, nAttempt int) (res *attemptResult, setupErr error) {
@@ -328,7 +428,7 @@ func runAttempt(t testing.TB, sc schedule, nAttempt int) (res *attemptResult, se
 		return nil, fmt.Errorf("validators: %v (%d)", err, len(vals))
 	}
 	for i, v := range vals {
-		if !v.Equal(cl.keys[i].PublicKey()) {
+		if !v.Equal(cl.keys[i].PublicKey()) { // cl.keys[:N] are the standby validators
 			return nil, fmt.Errorf("validator order differs from node order at %d", i)
 		}
 	}
@@ -343,9 +443,21 @@ func runAttempt(t testing.TB, sc schedule, nAttempt int) (res *attemptResult, se
 	wgFeed.Add(1)
 	go a.feeder(stopFeed, &wgFeed)
 
-	n, f := cfg.N, cfg.F()
+	n, f := cfg.Nodes(), cfg.F()
 	ok := a.quiet(2, false) // the network starts
+	registered := false
+	if ok && cfg.Extra > 0 {
+		registered = a.registerCandidates()
+		if !registered {
+			net.count("candidate_registration_not_on_chain_in_time", 1)
+		}
+	}
+	// elections: N+1 (an outsider comes in, the highest standby validator goes), N, N-1 (back to the standby set), ...
+	voteFor := []int{cfg.N + 1, cfg.N, cfg.N - 1}
 	for p := 0; ok && p < sc.FaultPhases; p++ {
+		if registered {
+			a.vote(voteFor[p%len(voteFor)])
+		}
 		steps := 1 + a.sr.Intn(2)
 		for s := 0; s < steps; s++ {
 			hs := cl.heights()
@@ -354,7 +466,11 @@ func runAttempt(t testing.TB, sc schedule, nAttempt int) (res *attemptResult, se
 			for i := range lag {
 				lag[i] = hs[i] < mx
 			}
-			c := genStep(a.sr, n, f, blockTime, lag, true)
+			force := ""
+			if p == 0 && s == 0 {
+				force = "commit-split" // every schedule meets the one-commits-others-change-view situation
+			}
+			c := genStep(a.sr, n, f, blockTime, lag, cl.validatorNodes(), true, force)
 			want := 2 + a.sr.Intn(3)
 			cap := 30 * blockTime
 			if c.Quorumless {
@@ -368,7 +484,7 @@ func runAttempt(t testing.TB, sc schedule, nAttempt int) (res *attemptResult, se
 	wgFeed.Wait()
 	if ok {
 		// final quiet phase: every validator gets its turn as primary
-		a.quiet(n+1, true)
+		a.quiet(cfg.N+1, true)
 	}
 	close(stop)
 	wg.Wait()
